@@ -2,6 +2,8 @@ package props
 
 import (
 	"crypto/ed25519"
+	"crypto/sha256"
+	"encoding/hex"
 	"encoding/json"
 	"fmt"
 	"strings"
@@ -76,13 +78,16 @@ func negativeTwin(ev string) string {
 }
 
 func checkC10(c *Ctx) {
-	c.Rule = "two key-generation rounds with the same participants run concurrently on one board (one message per poll, snapshot after every step), each followed by a signing batch. For every (genuine message g by participant P, consuming node) pair, in the exact state in which the node awaits it: (a) every other participant S posts the same payload - and the phase's failure event naming P - under its own name and signature: nothing recorded for P and not the round state may change; (b) the counterpart message of the other round (same sender, same event) is re-posted under this round's id, and g itself is re-posted under every other event name: must be rejected without any change. (b5/b6) the cross-event replays are repeated in every later state of the round and right after the node consumed the genuine message (finding keys tell replays before and after the genuine one apart). (b7) a stranger's own round (the participants' names registered with her key) posting signature broadcasts that name a real round: nothing in the real rounds may change. distinct = distinct (family, event, state) cases"
+	c.Rule = "two key-generation rounds with the same participants run concurrently on one board (one message per poll, snapshot after every step), each followed by a signing batch. For every (genuine message g by participant P, consuming node) pair, in the exact state in which the node awaits it: (a) every other participant S posts the same payload - and the phase's failure event naming P - under its own name and signature: nothing recorded for P and not the round state may change; (b) the counterpart message of the other round (same sender, same event) is re-posted under this round's id, and g itself is re-posted under every other event name: must be rejected without any change. (b5/b6) the cross-event replays are repeated in every later state of the round and right after the node consumed the genuine message (finding keys tell replays before and after the genuine one apart). (b7) a stranger's own round (the participants' names registered with her key) posting signature broadcasts that name a real round: nothing in the real rounds may change. A round cancelled by a decline and proposed again under the same id for the others: the one left out must not be able to answer in the name of the participant who now holds his index. distinct = distinct (family, event, state) cases"
 	c.Assumptions = []string{"MemState substituted for LevelDB", "re-posted messages keep their genuine signature (it covers the payload bytes)"}
 	cfgs := []ntCase{{3, 2}, {2, 2}}
 	if c.Thorough() {
 		cfgs = append(cfgs, ntCase{2, 2}, ntCase{3, 3}, ntCase{4, 3})
 	}
 	Parallel(len(cfgs), 4, func(i int) { runC10(c, cfgs[i].N, cfgs[i].T, c.Seed*77+uint64(i)) })
+	for i := 0; i < c.Pick(1, 4); i++ {
+		c10Reproposal(c, c.Seed*79+uint64(i))
+	}
 }
 
 func runC10(c *Ctx, n, t int, seed uint64) {
@@ -578,4 +583,64 @@ func strangerProposal(op storage.Message) storage.Message {
 	out.SenderAddr = "stranger"
 	out.Signature = []byte("none")
 	return out
+}
+
+// c10Reproposal: a round is opened for [P0, S, P2, P3], S declines (the round is cancelled), and the same
+// round id is proposed again for [P0, P2, P3]. Whatever becomes of the second proposal, S - no longer invited -
+// must not be able to answer in the name of the participant who now holds "his" index, and nothing recorded
+// for the honest participants may change through messages signed by S.
+func c10Reproposal(c *Ctx, seed uint64) {
+	w, err := world.NewWorld(world.Options{N: 4, T: 2, Seed: seed, NoCold: false})
+	if err != nil {
+		c.Inconclusive("re-proposal world: %v", err)
+		return
+	}
+	defer w.Close()
+	S := 1
+	p1 := w.InitPayload(2, now())
+	id := sha256.Sum256(p1)
+	round := hex.EncodeToString(id[:])
+	prop1 := world.SignMsg(w.Nodes[0], round, EvInit, p1, "")
+	decline := world.SignMsg(w.Nodes[S], round, EvDecline, mkReq(requests.SignatureProposalParticipantRequest{ParticipantId: S, CreatedAt: now()}), "")
+	p2 := w.InitPayload(2, now().Add(time.Second), w.Nodes[0], w.Nodes[2], w.Nodes[3])
+	prop2 := world.SignMsg(w.Nodes[0], round, EvInit, p2, "")
+	for _, v := range []int{0, 2} {
+		nd := w.Nodes[v]
+		run := func(m storage.Message) (err error) {
+			defer func() {
+				if p := recover(); p != nil {
+					err = fmt.Errorf("PANIC %v", p)
+				}
+			}()
+			return nd.Svc.ProcessMessage(m)
+		}
+		if err := run(prop1); err != nil {
+			c.Inconclusive("re-proposal: first proposal refused: %v", err)
+			return
+		}
+		_ = run(decline)
+		st1 := NodeState(nd, round)
+		before := nd.Mem.Snapshot()
+		err2 := run(prop2)
+		mid := nd.Mem.Snapshot()
+		wit := map[string]interface{}{"node": nd.Name, "state_after_decline": st1, "second_proposal_error": fmt.Sprint(err2), "state_after_second_proposal": NodeState(nd, round)}
+		c.Eval(1)
+		c.Distinct("re-proposal|second-proposal|" + st1)
+		if pd := protectedDiff(before, mid, ""); len(pd) > 0 {
+			c.Violate("C10/opening-proposal-for-an-existing-round-changed-it", fmt.Sprintf("round %s was cancelled by %s's decline; a second opening proposal under the same id (another participant list) changed %v on %s", trunc(round, 8), w.Nodes[S].Name, pd, nd.Name), wit)
+		}
+		// S answers as the participant who holds index 1 in the second list (signed with S's own key)
+		for _, ev := range []string{EvConfirm, EvDecline} {
+			forged := world.SignMsg(w.Nodes[S], round, ev, mkReq(requests.SignatureProposalParticipantRequest{ParticipantId: 1, CreatedAt: now().Add(2 * time.Second)}), "")
+			nd.Mem.Restore(mid)
+			errF := run(forged)
+			after := nd.Mem.Snapshot()
+			c.Eval(1)
+			c.Distinct("re-proposal|ex-participant-answers|" + ev)
+			if errF == nil || len(world.DiffMaps(mid, after, world.Topic+"_offset")) > 0 {
+				c.Violate("C10/ex-participant-acts-in-anothers-name", fmt.Sprintf("%s (invited by the first proposal only) sent %s for participant #1 of the re-proposed round, signed with his own key: accepted=%v, changed %v", w.Nodes[S].Name, ev, errF == nil, world.DiffMaps(mid, after, world.Topic+"_offset")), wit)
+			}
+		}
+		c.Add("re-proposed_rounds_judged", 1)
+	}
 }
